@@ -126,8 +126,8 @@ def interestCore (H : Bytes → Bytes) (name : List Bytes) (mid : List Value) (a
   let covered := match signer with
     | none => []
     | some _ => nameChunks comps pos' ++ [tailA]
-  -- a digest component supplied by the caller stays as given in the returned final name
-  pure { wire := w, covered := covered, finalName := if appended then comps else comps0,
+  -- the returned final name carries the digest as written into the wire (also for a caller-supplied placeholder)
+  pure { wire := w, covered := covered, finalName := comps,
          digestCovered := if need then digestCovered else [] }
 
 /-- `make_interest(name, interest_param, app_param, signer)`.
